@@ -35,7 +35,8 @@ ReadLine(src, ln) == LET r == LineSpan(src, ln) IN SubSeq(src, r.s + 1, r.e)
 RawLine(src, ln)  == LET r == RawLineSpan(src, ln) IN SubSeq(src, r.s + 1, r.e)
 
 \* line number of byte offset `idx`: the number of newlines strictly before it
-LineOf(src, idx) == Len(SelectSeq(NlIdx(src), LAMBDA o : o < idx))
+LineOfNl(nl, idx) == Len(SelectSeq(nl, LAMBDA o : o < idx))
+LineOf(src, idx) == LineOfNl(NlIdx(src), idx)
 
 \* (line, column): the position of any index, as the property states it: the line is
 \* the one whose start lies `column` bytes before the index; past the end, the last line
